@@ -208,7 +208,7 @@ CHECKS['C15'] = (
     'against create_bundle for zip and tar.bz2',
     'Proof (on the model): bundleMembers_iff (exactly: README, members of expressible basis sets, notes of families that have notes), gated_out_absent, entryMembers_spec, version_files_present, family_notes_always_present (independent of the gate), notes_named_after_own_basis (the property the repaired defect F4 violated). Tie: model member '
     'list (names, order, content hashes) = members read from the real archive; every member byte for byte = get_basis / get_references / notes of the same '
-    'sampled directory; no duplicates, nothing else. Partial: archive encoding (zipfile/tarfile/bz2) is glue; name injectivity is not proved.',
+    'sampled directory; no duplicates, nothing else. file_names_map_back: the name of a basis / reference file determines (basis in file-name form, version) and the name of a notes file determines the basis, for names with any characters, under the hypothesis that versions contain no dot (observed on every directory bundled; counted in the evidence). Partial: archive encoding (zipfile/tarfile/bz2) is glue; that member names of different kinds (basis file / reference file / notes / README) never coincide is checked on the real archives (no duplicates), not proved.',
     BASE_NOTE + 'zipfile, tarfile.', '6/C15')
 
 CHECKS['C16'] = (
